@@ -321,3 +321,14 @@ def c13_pburg(ctx, case):
     if c is None:
         tol = 10 * (1e-9 + 1e-11 * float(ratio[-1]))
         ctx.close(_c(obj.reflection), kref, "pburg.reflection vs reference Burg recursion", rtol=0, atol=tol)
+
+
+# ---- number-type invariance (integer samples of a narrow dtype) -------------------
+from vlib import dtypecheck as _dt   # noqa: E402
+
+
+@sub("C13.dtype", strategy=_dt.int_case(sorted(_dt.TABLES["C13"])), quick=300, thorough=6000,
+     doc="the same integer-valued samples stored as int16/int8/uint8/uint16/int32/int64 or as float64 give the same result "
+         "(products of two narrow integers do not fit their dtype): " + ", ".join(sorted(_dt.TABLES["C13"])))
+def c13_dtype(ctx, case):
+    _dt.body(ctx, case, _dt.TABLES["C13"])
